@@ -123,3 +123,22 @@ Example exg_lookups :
   /\ section_at exg_payload 47 = Some (exg_cid, [x01; x02])
   /\ section_at exg_payload 46 = None.
 Proof. vm_compute. repeat split; reflexivity. Qed.
+
+(* ---- ReadOrGenerateIndex on the example archive ------------------------------------------------------ *)
+Definition exg_own_index : index := idx_load (section_recs exg_opts 18 exg_blocks) (IdxMh []).
+Definition exg_v2_indexed : bytes :=
+  v2_container 0 0 (51 + 3 + blen exg_payload + 2) [x00; xff; x00] exg_payload ([x00; x00] ++ idx_write exg_own_index ++ [x77]).
+
+Example exg_rog :
+  read_or_generate_index dec_header_canon codec_sorted exg_opts exg_v2_indexed = Ok exg_own_index        (* read; codec option ignored *)
+  /\ read_or_generate_index dec_header_canon codec_mh_sorted exg_opts exg_v2 = Ok exg_own_index          (* IndexOffset 0: generated *)
+  /\ read_or_generate_index dec_header_canon codec_mh_sorted exg_opts exg_payload = Ok exg_own_index     (* CARv1: generated *)
+  /\ idx_getall exg_own_index 18 [xaa; xbb; xcc; xdd] = [18; 47].
+Proof. vm_compute. repeat split; reflexivity. Qed.
+
+(* an index section that lies is returned as it is: nothing is checked against the payload *)
+Example exg_rog_trusts_the_index :
+  read_or_generate_index dec_header_canon codec_mh_sorted exg_opts
+    (v2_container 0 0 (51 + blen exg_payload) [] exg_payload (idx_write (IdxMh [])))
+  = Ok (IdxMh []).
+Proof. vm_compute. reflexivity. Qed.
